@@ -202,10 +202,10 @@ func (s *sim) checkEngineArgs(b *blockRec, calls []engineCall) {
 // ---------- C04: what crosses a seam round-trips; faulty streams surface ----------
 
 type shortReader struct {
-	r    io.Reader
-	n    int
+	r     io.Reader
+	n     int
 	errAt int
-	read int
+	read  int
 }
 
 func (s *shortReader) Read(p []byte) (int, error) {
